@@ -115,7 +115,8 @@ CHECKS = {
     ),
     "C17": dict(
         category="model_checking",
-        text="Session.tla states the multi-database promise (isolation, failing CREATE DATABASE/USE change nothing, SHOW lists created "
+        text="(Names that are a path - \"x/y\", \"..\", \".\" - are Session!BadNames: CREATE DATABASE / USE of one is an error that changes nothing.) "
+             "Session.tla states the multi-database promise (isolation, failing CREATE DATABASE/USE change nothing, SHOW lists created "
              "names, ticks and restarts change no content) with a ghost `unsaved` set that makes TLC generate the paths on which a leaked "
              "or re-opened store would lose data; every transition of the bounded graph (3 name variants incl. case, 2 values, 8-9 steps) "
              "is replayed through engine.Session with timers replaced by ticks delivered to every store still open; after each step the "
@@ -230,7 +231,8 @@ CHECKS = {
     ),
     "C18": dict(
         category="exploration",
-        text="StmtGen.tla enumerates the components of statements that parse but may be ill-typed (every select-item kind over every column "
+        text="(One scenario runs the real flush timers with a data file that takes no writes any more: after the failed periodic flush SELECT, INSERT, USE and the shutdown must each return.) "
+             "StmtGen.tla enumerates the components of statements that parse but may be ill-typed (every select-item kind over every column "
              "type and over missing/qualified/duplicated names, comparisons across all type pairs incl. NULL-bearing columns, ORDER BY / GROUP BY "
              "on every column and on unknown names, joins with unknown tables, INSERT/UPDATE/DELETE/CREATE TABLE with confused values and "
              "names) and the session states {no USE, after a failed USE, empty tables, NULL-bearing rows}; every element is used at least once "
